@@ -11,14 +11,16 @@ Extensions (second round): `dense_general` (what the dense scatter computes on e
 loops), rank truncation (`truncChecked_spec`, `buildTrunc_correct`, `truncated_precision_le`; the coded
 truncated-SVD formula equals the truncated pseudo-inverse: `svdTrunc_eq_specTrunc` in Lemmas/C12Trunc.lean),
 the object level (`gmrfModel_eq_vectorModel`, `gmrfModel_mean`, `gmrfModel_query_batch_eq_single`),
-`precision_pca`, the float32 storage bounds, and the tie of the model to the statement tables re-read from
-the source (`denseStep_eq_table`, …, `build_dispatch`).
+`precision_pca`, the float32 storage bounds, and (third round, namespace `Src`) the property for the routines
+TRANSLATED from the source text on every run: `coded_precision_correct`, `coded_diag_precision_correct`,
+`coded_constructor_correct`, `coded_mahalanobis_correct`, `coded_objInit` (with `Lemmas/C12Src*.lean`).
 -/
 import MenpoModel.Lemmas.C12Bsr
 import MenpoModel.Lemmas.C12Inv
 import MenpoModel.Lemmas.C12DenseGen
 import MenpoModel.Lemmas.C12Trunc
-import MenpoModel.Core.C12Table
+import MenpoModel.Lemmas.C12SrcQuery
+import MenpoModel.Lemmas.C12SrcSort
 
 set_option linter.unusedSimpArgs false
 set_option linter.unusedVariables false
@@ -934,58 +936,6 @@ theorem storage_rounding_bound_rel (u : Rat) (ts ts' : List Trip)
       rw [if_neg hp, if_neg hp', if_neg hp]
       simpa using ih
 
-/-! ### EXTENSION: the model is the interpretation of the statement tables
-
-`GenProps/C12.lean` obliges the tables re-read from the live source to equal `modelDenseTable`,
-`modelTripTable`, …; these theorems say that the executable model the other theorems are about is exactly
-the interpretation of those tables. -/
-
-theorem denseStep_eq_table (m : Mode) (k n : Nat) (P : Mat) (eB : (Nat × Nat) × Mat) :
-    denseStep m k n P eB = denseStepT (modelDenseTable m) k n P eB := by
-  cases m <;> rfl
-
-theorem edgeTrips_eq_table (m : Mode) (k : Nat) (e : Nat × Nat) (B : Mat) :
-    edgeTrips m k e B = edgeTripsT (modelTripTable m) k e B := by
-  cases m <;> rfl
-
-theorem denseDiag_eq_table (k n v : Nat) (B : Mat) (Bs : List Mat) (P : Mat) :
-    denseDiagFrom k n v (B :: Bs) P =
-      denseDiagFrom k n (v + 1) Bs (denseStepT modelDiagDenseTable k n P ((v, v), B)) := rfl
-
-theorem diagTrips_eq_table (k v : Nat) (B : Mat) (Bs : List Mat) :
-    diagTrips k v (B :: Bs) = edgeTripsT modelDiagTripTable k (v, v) B ++ diagTrips k (v + 1) Bs := rfl
-
-theorem indptrStep_eq_table (rows ip : List Nat) (i : Nat) :
-    indptrStep rows ip i = indptrStepT modelIndptrEmpty modelIndptrSome rows ip i := by
-  unfold indptrStep indptrStepT
-  cases h : whereEq i rows 0 with
-  | nil => simp [modelIndptrEmpty, runIAsg]
-  | cons p ps => simp [modelIndptrSome, runIAsg]
-
-/-- the constructor dispatch of `__init__` as the model has it: both storages of `build` are what
-`ctorOf` selects -/
-theorem build_dispatch (m : Mode) (k V : Nat) (X : Mat) (N : Nat) (bias : Bool) (es : List (Nat × Nat)) (M : Model)
-    (hb : build m k V X N bias es = some M) :
-    ∃ Bs, (ctorOf es.isEmpty false).dense m k (V * k) es Bs = some M.denseP ∧
-      (ctorOf es.isEmpty true).sparse m k V es Bs = some M.sparseP := by
-  unfold build at hb
-  simp only at hb
-  cases he : es.isEmpty with
-  | true =>
-    simp only [he, if_true] at hb
-    split at hb
-    · exact absurd hb (by simp)
-    · rename_i Bs _
-      injection hb with hb; subst hb
-      exact ⟨Bs, rfl, rfl⟩
-  | false =>
-    simp only [he, Bool.false_eq_true, if_false] at hb
-    split at hb
-    · exact absurd hb (by simp)
-    · rename_i Bs _
-      injection hb with hb; subst hb
-      exact ⟨Bs, rfl, rfl⟩
-
 /-! ### known defect of the coded constructor (before `C12-scalar-feature-covariance`) -/
 
 /-- refutation by witness: with one feature per vertex the coded constructor raises in subtraction
@@ -1011,5 +961,225 @@ theorem buildFixed_ok_iff (m : Mode) (k V : Nat) (X : Mat) (N : Nat) (bias : Boo
   split
   · rename_i M' h; rw [h]; constructor <;> intro h' <;> injection h' with h' <;> rw [h']
   · rename_i h; rw [h]; constructor <;> intro h' <;> exact absurd h' (by simp)
+
+/-! ### EXTENSION (translator tie): the property for the routines TRANSLATED from the source text
+
+`GenProps/C12Src.lean` proves, on every run, that the Lean translation of the current source text of
+`_covariance_matrix_inverse`, the four `_create_*_precision` routines, `GMRFVectorModel.__init__`, `GMRFModel.__init__`,
+`_data_to_matrix`, `mean`, `mahalanobis_distance`, `_mahalanobis_distance` and `principal_components_analysis` equals the
+`…Coded` definitions of `Core/C12Src.lean` for all arguments.  The theorems below are about those definitions (hence
+about what the source says now); `Lemmas/C12Src*.lean` carry the proofs that they compute what the executable model of
+`Core/C12GMRF.lean` computes. -/
+
+namespace Src
+
+/-- **PROPERTY for the translated `_create_sparse_precision` / `_create_dense_precision`** (any inverse routine `cinv`
+returning blocks of the edge size — `np.linalg.inv` and the truncated SVD alike —, any `argsort` keeping numpy's
+promise, every graph without repeated, antiparallel or self edges, both modes): whenever the two routines return, they
+have inverted the same covariances `Bs`, the block-sparse-row matrix denotes the dense one, both are the sum over the
+edges of the embedded blocks, and `xᵀPx = Σ_e x_eᵀ B_e x_e` -/
+theorem coded_precision_correct (m : Mode) (k V : Nat) (hk : 0 < k) (cinv : Arr → Option Nat → Except PyErr Mat)
+    (argsort : List Nat → List Nat) (X : Mat) (g : GraphS) (dtype : DType) (nc : Option Nat) (bias : Bool)
+    (hV : g.nVertices = V) (hs : SimpleEdges V g.edges)
+    (hc : ∀ e, e < g.nEdges → ∀ B, cinv (edgeCov X g k (toS m) bias e) nc = .ok B → IsTab (m.dim k) (m.dim k) B)
+    (ha : ∀ rows, ArgsortOK argsort rows) (D : Mat) (S : BSR)
+    (hD : denseCoded cinv X g (V * k) k (toS m) dtype nc bias = .ok D)
+    (hS : sparseCoded cinv argsort X g (V * k) k (toS m) dtype nc bias = .ok S) :
+    ∃ Bs, collectL (fun e => cinv (edgeCov X g k (toS m) bias e) nc) (List.range g.nEdges) = .ok Bs ∧
+      (∀ I J, I < V * k → J < V * k → bsrEnt k S I J = ent D I J) ∧
+      (∀ I J, I < V * k → J < V * k → ent D I J = tripsEntFlat k (allTrips m k g.edges Bs) I J) ∧
+      (∀ x, qf (V * k) (ent D) x = (edgeForms m k g.edges Bs x).sum) := by
+  rw [denseCoded_eq m cinv X g (V * k) k dtype nc bias hc] at hD
+  rw [sparseCoded_eq m cinv argsort X g (V * k) k dtype nc bias hc] at hS
+  cases hcol : collectL (fun e => cinv (edgeCov X g k (toS m) bias e) nc) (List.range g.nEdges) with
+  | error err => rw [hcol] at hD; exact absurd hD (by simp)
+  | ok Bs =>
+    rw [hcol] at hD hS
+    simp only at hD hS
+    injection hD with hD; subst hD
+    injection hS with hS; subst hS
+    have hsum : ∀ I J, I < V * k → J < V * k →
+        ent (dense m k (V * k) g.edges Bs) I J = tripsEntFlat k (allTrips m k g.edges Bs) I J :=
+      fun I J hI hJ => dense_eq_sum m k V hk g.edges Bs hs I J hI hJ
+    refine ⟨Bs, rfl, ?_, hsum, ?_⟩
+    · intro I J hI hJ
+      rw [hV, coded_bsr_denotes_sum argsort k V _ (ha _) I J ((Nat.div_lt_iff_lt_mul hk).2 hI), hsum I J hI hJ]
+    · intro x
+      rw [qf_congr (V * k) _ (tripsEntFlat k (allTrips m k g.edges Bs)) x x hsum (fun _ _ => rfl)]
+      exact precision_quadratic_form m k V hk g.edges Bs (fun e he => ⟨(hs.1 e he).1, (hs.1 e he).2.1⟩) x
+
+/-- **PROPERTY for the translated edgeless constructors**: same blocks, sparse = dense = one inverted covariance per
+vertex on the block diagonal, `xᵀPx = Σ_v x_vᵀ B_v x_v` -/
+theorem coded_diag_precision_correct (k V : Nat) (hk : 0 < k) (cinv : Arr → Option Nat → Except PyErr Mat)
+    (argsort : List Nat → List Nat) (X : Mat) (g : GraphS) (dtype : DType) (nc : Option Nat) (bias : Bool)
+    (hV : g.nVertices = V)
+    (hc : ∀ v, v < g.nVertices → ∀ B, cinv (vertexCov X k bias v) nc = .ok B → IsTab k k B)
+    (ha : ∀ rows, ArgsortOK argsort rows) (D : Mat) (S : BSR)
+    (hD : denseDiagCoded cinv X g (V * k) k dtype nc bias = .ok D)
+    (hS : sparseDiagCoded cinv argsort X g (V * k) k dtype nc bias = .ok S) :
+    ∃ Bs, collectL (fun v => cinv (vertexCov X k bias v) nc) (List.range g.nVertices) = .ok Bs ∧
+      (∀ I J, I < V * k → J < V * k → bsrEnt k S I J = ent D I J) ∧
+      (∀ I J, I < V * k → J < V * k → ent D I J = tripsEntFlat k (diagTrips k 0 Bs) I J) ∧
+      (∀ I J, I / k ≠ J / k → tripsEntFlat k (diagTrips k 0 Bs) I J = 0) ∧
+      (∀ x, qf (V * k) (ent D) x = (vertexForms k 0 Bs x).sum) := by
+  rw [denseDiagCoded_eq cinv X g (V * k) k dtype nc bias hc] at hD
+  rw [sparseDiagCoded_eq cinv argsort X g (V * k) k dtype nc bias hc] at hS
+  cases hcol : collectL (fun v => cinv (vertexCov X k bias v) nc) (List.range g.nVertices) with
+  | error err => rw [hcol] at hD; exact absurd hD (by simp)
+  | ok Bs =>
+    rw [hcol] at hD hS
+    simp only at hD hS
+    injection hD with hD; subst hD
+    injection hS with hS; subst hS
+    have hlen : Bs.length = V := by rw [collectL_length _ _ Bs hcol, List.length_range, hV]
+    have hsum : ∀ I J, I < V * k → J < V * k →
+        ent (denseDiag k (V * k) Bs) I J = tripsEntFlat k (diagTrips k 0 Bs) I J :=
+      fun I J hI hJ => diag_dense_eq_sum k V hk Bs I J hI hJ
+    refine ⟨Bs, rfl, ?_, hsum, fun I J h => diag_block_diagonal k Bs I J h, ?_⟩
+    · intro I J hI hJ
+      rw [hV, coded_bsr_denotes_sum argsort k V _ (ha _) I J ((Nat.div_lt_iff_lt_mul hk).2 hI), hsum I J hI hJ]
+    · intro x
+      rw [qf_congr (V * k) _ (tripsEntFlat k (diagTrips k 0 Bs)) x x hsum (fun _ _ => rfl)]
+      exact diag_quadratic_form k V hk Bs hlen x
+
+/-- **PROPERTY for the translated `GMRFVectorModel.__init__`** (with the translated `_covariance_matrix_inverse`,
+`n_components=None`, exact data): on every simple graph or the edgeless one, both modes, both bias conventions, any
+`n_samples`, any `argsort` keeping numpy's promise — the sparse and the dense constructor succeed together; the two
+stored precisions have the same entries; the matrix is symmetric, positive semi-definite and couples two vertices only
+if the graph joins them; the mean is the sample mean -/
+theorem coded_constructor_correct (m : Mode) (k V : Nat) (X : Mat) (es : List (Nat × Nat)) (bias : Bool)
+    (svd : Mat → Option (Mat × List Rat × Mat)) (argsort : List Nat → List Nat) (ns : Option Nat) (dtype : DType)
+    (hk : 0 < k) (hV : 0 < V) (hN : EnoughSamples X.length bias) (hW : rowLen X = V * k) (hs : SimpleEdges V es)
+    (ha : ∀ rows, ArgsortOK argsort rows) (Md : VecModel)
+    (hd : vecInitCoded (covInverseCoded svd) argsort (.arr2 X) ⟨es, V⟩ ns (toS m) none dtype false bias false = .ok Md) :
+    ∃ Ms, vecInitCoded (covInverseCoded svd) argsort (.arr2 X) ⟨es, V⟩ ns (toS m) none dtype true bias false = .ok Ms ∧
+      Ms.mean_vector = meanVec X X.length (V * k) ∧ Md.mean_vector = meanVec X X.length (V * k) ∧
+      (∀ I J, I < V * k → J < V * k → Ms.precision.ent I J = Md.precision.ent I J) ∧
+      (∀ I J, I < V * k → J < V * k → Md.precision.ent I J = Md.precision.ent J I) ∧
+      (∀ x, 0 ≤ qf (V * k) Md.precision.ent x) ∧
+      (∀ I J, I < V * k → J < V * k → Md.precision.ent I J ≠ 0 →
+        I / k = J / k ∨ (I / k, J / k) ∈ es ∨ (J / k, I / k) ∈ es) := by
+  have hN0 : 0 < X.length := by
+    unfold EnoughSamples at hN
+    cases bias <;> simp at hN <;> omega
+  have hv : ∀ e ∈ es, e.1 < V ∧ e.2 < V := fun e he => ⟨(hs.1 e he).1, (hs.1 e he).2.1⟩
+  rw [vecInit_dense_eq_build m k V X es bias svd argsort ns dtype hV hN0 hW hv] at hd
+  rw [vecInit_sparse_eq m k V X es bias svd argsort ns dtype hV hN0 hW hv]
+  have hbb := build_eq_blocks m k V X X.length bias es
+  cases hb : build m k V X X.length bias es with
+  | none => rw [hb] at hd; exact absurd hd (by simp [okOr, Except.map])
+  | some M =>
+    rw [hb] at hd hbb
+    cases hbl : blocksOf m k V X X.length bias es with
+    | none => rw [hbl] at hbb; exact absurd hbb (by simp)
+    | some Bs =>
+      rw [hbl] at hbb
+      simp only [Option.map_some] at hbb
+      injection hbb with hM
+      simp only [okOr, Except.map] at hd
+      injection hd with hd; subst hd
+      obtain ⟨c1, c2, c3, c4⟩ := build_correct m k V X X.length bias es M hk hs hN hb
+      refine ⟨_, rfl, rfl, rfl, ?_, c2, c3, c4⟩
+      intro I J hI hJ
+      show bsrEnt k (assembleSorted V (permT (tripsOf m k es Bs) _)) I J = ent M.denseP I J
+      rw [coded_bsr_denotes_sum argsort k V _ (ha _) I J ((Nat.div_lt_iff_lt_mul hk).2 hI), ← c1 I J hI hJ, hM]
+      exact (bsr_denotes_sum k V _ I J ((Nat.div_lt_iff_lt_mul hk).2 hI)).symm
+
+/-- **PROPERTY for the translated `_mahalanobis_distance`** (mean subtracted, no square root): for `m` samples the
+routine returns, for either storage, the distances `d_i = (x_i − μ)ᵀ P (x_i − μ)` (as a number when `m = 1`) — so the
+value does not depend on the storage flag (only on the entries of the precision), entry `i` of a batched query is the
+single query of row `i`, every distance is non-negative for a positive semi-definite precision and zero at the mean -/
+theorem coded_mahalanobis_correct (sqrt : Rat → Rat) (M : VecModel) (S : Mat) (mm n : Nat) (hm : 0 < mm) (hn : 0 < n)
+    (hS : IsTab mm n S) (hP : M.precision.n = n) :
+    ∃ d : List Rat, mahalanobisCoreCoded sqrt M S true false = outOf d ∧ d.length = mm ∧
+      (∀ i, i < mm → d.getD i 0 = qf n M.precision.ent (fun I => ent (subMean S M.mean_vector n) i I)) ∧
+      (∀ i I, i < mm → I < n → ent (subMean S M.mean_vector n) i I = ent S i I - M.mean_vector.getD I 0) ∧
+      ((∀ x, 0 ≤ qf n M.precision.ent x) → ∀ i, i < mm → 0 ≤ d.getD i 0) := by
+  rw [mahalanobisCore_eq sqrt M S true mm n hm hn hS hP]
+  simp only [if_true]
+  have hlen : (subMean S M.mean_vector n).length = mm := by rw [subMean_length, hS.length]
+  have hvals : ∀ i, i < mm →
+      (if M.sparse = true then mahalSparse n M.precision.ent (subMean S M.mean_vector n)
+        else mahalDense n M.precision.ent (subMean S M.mean_vector n)).getD i 0 =
+        qf n M.precision.ent (fun I => ent (subMean S M.mean_vector n) i I) := by
+    intro i hi
+    cases M.sparse
+    · simp only [Bool.false_eq_true, if_false]
+      exact mahalDense_eq_qf n _ _ i (by rw [hlen]; exact hi)
+    · simp only [if_true]
+      exact mahalSparse_eq_qf n _ _ i (by rw [hlen]; exact hi)
+  refine ⟨_, rfl, ?_, hvals, ?_, ?_⟩
+  · cases M.sparse <;> simp [mahalSparse, mahalDense, hlen]
+  · intro i I hi hI
+    exact ent_subMean S _ n i I (by rw [hS.length]; exact hi) hI
+  · intro hpsd i hi
+    rw [hvals i hi]
+    exact hpsd _
+
+/-- the object level as coded: `GMRFModel.__init__` vectorises the samples (`as_matrix`), takes `n_samples` from the
+data and hands every option on under its own name — so `coded_constructor_correct` applies to `GMRFModel` as well -/
+theorem coded_objInit (cinv : Arr → Option Nat → Except PyErr Mat) (argsort : List Nat → List Nat) (t : Mat)
+    (samples : List Mat) (graph : GraphS) (mode : ModeS) (nc : Option Nat) (dtype : DType) (sparse bias incremental : Bool) :
+    objInitCoded cinv argsort (t :: samples) graph mode nc dtype sparse none bias incremental =
+      (vecInitCoded cinv argsort (.arr2 ((t :: samples).map objVec)) graph (some (samples.length + 1)) mode nc dtype
+        sparse bias incremental).map (fun M => (t, M)) := by
+  unfold objInitCoded asMatrixT
+  simp only [PyData.len, List.length_map, List.length_cons]
+  cases vecInitCoded cinv argsort (.arr2 ((t :: samples).map objVec)) graph (some (samples.length + 1)) mode nc dtype
+    sparse bias incremental <;> rfl
+
+/-! non-vacuity of the hypotheses of the `coded_…` theorems -/
+
+/-- an `argsort` keeping numpy's promise exists (the one the driver runs) -/
+example : ∀ rows, ArgsortOK argsortIns rows := argsortIns_ok
+
+/-- what a constructor stored at an entry, if it returned -/
+def okEnt (r : Except PyErr VecModel) (I J : Nat) : Option Rat :=
+  match r with
+  | .ok M => some (M.precision.ent I J)
+  | .error _ => none
+
+/-- the translated constructor returns for both storages on concrete data (path graph, one feature per vertex), the two
+stored matrices agree, vertices 0 and 2 are not coupled; subtraction mode with a single feature (the case
+`np.atleast_2d` repairs), bias 1, float32 and `incremental=True` build as well -/
+example :
+    okEnt (vecInitCoded (covInverseCoded fun _ => none) argsortIns (.arr2 exX) ⟨[(0, 1), (1, 2)], 3⟩ none
+      .concatenation none .float64 true false false) 1 2 =
+    okEnt (vecInitCoded (covInverseCoded fun _ => none) argsortIns (.arr2 exX) ⟨[(0, 1), (1, 2)], 3⟩ none
+      .concatenation none .float64 false false false) 1 2 ∧
+    okEnt (vecInitCoded (covInverseCoded fun _ => none) argsortIns (.arr2 exX) ⟨[(0, 1), (1, 2)], 3⟩ none
+      .concatenation none .float64 false false false) 1 2 = some (90 / 641) ∧
+    okEnt (vecInitCoded (covInverseCoded fun _ => none) argsortIns (.arr2 exX) ⟨[(0, 1), (1, 2)], 3⟩ none
+      .concatenation none .float64 true false false) 0 2 = some 0 ∧
+    (vecInitCoded (covInverseCoded fun _ => none) argsortIns (.arr2 exX) ⟨[(0, 1), (2, 1)], 3⟩ none
+      .subtraction none .float32 true true true).toOption.isSome = true := by
+  decide +kernel
+
+/-- the data of that example meets the shape hypotheses: 7 rows, 3 = 3 · 1 columns -/
+example : EnoughSamples exX.length false ∧ rowLen exX = 3 * 1 ∧ SimpleEdges 3 [(0, 1), (1, 2)] := by
+  refine ⟨by simp [EnoughSamples, exX], rfl, by decide, by decide⟩
+
+/-- `n_components`: with the factors of a (rational) SVD the coded formula returns the model's `svdTrunc`
+(hypotheses of `covInverseCoded_some`), and a failing SVD falls back to the plain inverse (the bare `except`) -/
+example :
+    let C : Mat := [[34/25, 12/25], [12/25, 41/25]]
+    let U : Mat := [[3/5, -4/5], [4/5, 3/5]]
+    let Vh : Mat := [[3/5, 4/5], [-4/5, 3/5]]
+    (covInverseCoded (fun _ => some (U, [2, 1], Vh)) (arrOf 2 C) (some 1)).toOption = some (svdTrunc 2 1 U [2, 1] Vh) ∧
+    (covInverseCoded (fun _ => none) (arrOf 2 C) (some 1)).toOption =
+      (covInverseCoded (fun _ => none) (arrOf 2 C) none).toOption ∧
+    C = tab 2 2 (ent C) ∧ U = tab 2 2 (ent U) := by
+  decide +kernel
+
+/-- a query on the model of the first example: one sample comes back as a number, two as an array -/
+example :
+    (match vecInitCoded (covInverseCoded fun _ => none) argsortIns (.arr2 exX) ⟨[(0, 1), (1, 2)], 3⟩ none
+        .concatenation none .float64 true false false with
+      | .ok M => ((mahalanobisCoreCoded id M [[1, 2, 0]] true false).toList.length,
+          (mahalanobisCoreCoded id M [[1, 2, 0], [0, 1, 3]] true false).toList.length, M.precision.n)
+      | .error _ => (0, 0, 0)) = (1, 2, 3) := by
+  decide +kernel
+
+end Src
 
 end MenpoModel.C12
